@@ -68,6 +68,7 @@ def _expand_chunk(entries):
     within = getattr(system, "within_bounds", None)
     prune = getattr(system, "prune", None)
     rebuild = getattr(system, "rebuild", False)
+    state_check = getattr(system, "state_check", None)
     npruned = 0
     for hist, dg in entries:
         w0 = build(system, hist)
@@ -109,6 +110,17 @@ def _expand_chunk(entries):
                 nnontriv += 1
             d = _digest(system, w)
             if d != dg and d not in succ:
+                if state_check is not None:
+                    # state invariant, evaluated once per (locally) new state
+                    bad = state_check(w0, op, w, obs)
+                    if bad:
+                        for fp, detail in bad:
+                            e = viols.get(fp)
+                            if e is None:
+                                viols[fp] = [1, {"history": list(hist) + [op], "detail": detail}]
+                            else:
+                                e[0] += 1
+                        continue
                 succ[d] = hist + (op,)
     return succ, viols, ntrans, nvalid, nnontriv, outcomes, npruned
 
@@ -117,7 +129,7 @@ class Result:
     pass
 
 
-def explore(system, *, seed=0, workers=None, max_states=None, time_cap=None, log=None):
+def explore(system, *, seed=0, workers=None, max_states=None, time_cap=None, log=None, collect=False):
     """Run the BFS to fixpoint (or to a cap).  Returns a Result with measured counts."""
     global _SYS, _SEED
     _SYS = system
@@ -140,6 +152,7 @@ def explore(system, *, seed=0, workers=None, max_states=None, time_cap=None, log
     res.outcomes = collections.Counter()
     res.levels = []
     res.sample_histories = [[]]
+    res.all_histories = [()]
     ic = getattr(system, "init_check", None)
     if ic is not None:
         for fp, detail in ic(w0):
@@ -185,6 +198,8 @@ def explore(system, *, seed=0, workers=None, max_states=None, time_cap=None, log
                         seen.add(d)
                         h = tuple(intern.setdefault(o, o) for o in h)
                         nxt.append((h, d))
+                        if collect:
+                            res.all_histories.append(h)
             # deterministic order of the next level irrespective of worker scheduling
             nxt.sort(key=lambda e: e[1])
             frontier = nxt
